@@ -217,6 +217,8 @@ def generate(tier, rng):
         v6 = sport % 2 == 0
         s, d = gens.addr_pair(v6)
         fu.append(net.frame_udp(s, d, sport, rng.choice([53, 80, 111, 445, 3478, 65535]), acc))
+        fu.append(net.frame_udp(s, d, sport, rng.choice([53, 3478]), acc + b"\x00\x01 / more\r\n\r\n"))
+        fu.append(net.frame_udp(s, d, sport, 53, acc + bytes(rng.randrange(256) for _ in range(rng.randrange(1, 40)))))
         ft += gens.handshake(KEY, s, d, sport, rng.choice([22, 80, 111, 445, 3478]), [acc, b"\x00\x01 / more\r\n\r\n"])
     for i in range(0, len(fu), 150):
         yield Script(cfg, fu[i:i + 150], "F|access-udp")
